@@ -151,6 +151,9 @@ func (n *UploadPackSession) negotiate() (stateFn, error) {
 func (n *UploadPackSession) negotiateTables(upr *payload.UploadPackResponse) (stateFn, error) {
 	acks := [][]byte{}
 	for _, sum := range upr.TableHaves {
+		if sum == nil {
+			return nil, fmt.Errorf("invalid upload pack response: null table sum")
+		}
 		b := (*sum)[:]
 		if objects.TableExist(n.db, b) {
 			acks = append(acks, b)
